@@ -28,7 +28,10 @@ def main():
     errors = []
     prog = lemmas.load_program()
     res = lemmas.Result()
-    for l in a.lemmas.split(","):
+    lem = a.lemmas.split(",")
+    if "XCHECK" in lem:
+        lemmas.RECORD = []
+    for l in [x for x in lem if x != "XCHECK"]:
         try:
             LEMMAS[l](prog, res)
         except sym.Unsupported as u:
@@ -37,6 +40,8 @@ def main():
         except Exception as ex:
             res.add(f"{l}.encode", "inconclusive", f"internal error: {ex!r}")
             errors.append(f"{l}: {traceback.format_exc()[-800:]}")
+    if "XCHECK" in lem:
+        lemmas.crosscheck_cvc5(res)
     obs = []
     for o in res.obligations:
         m = o.pop("model", None)
